@@ -333,4 +333,187 @@ theorem Shrink3.unlinkI {m : Map X} (h : WF 4 m) {l : Nat} (hl : l < m.n) : Shri
       · exact Or.inr rfl
       · exact Or.inl rfl
 
+
+/-! ## the lock-step walk of `three_link` -/
+
+/-- the mirror condition at one dart, in direction `i` (`Mirror m ↔ ∀ d < n, MAtG m 1 d`) -/
+def MAtG (m : Map X) (i d : Nat) : Prop :=
+  m.β i d ≠ 0 → m.β 3 d ≠ 0 → m.β 3 (m.β i d) ≠ 0 → m.β i (m.β 3 (m.β i d)) = m.β 3 d
+
+/-- loop invariant of `threeLinkWalk` at the loop head: `(pl, pr)` is the pair linked last,
+    `(ls, rs)` the current pair; the mirror condition holds except at the frontier `pl`, `rs` and
+    at the fixed exceptions `E` -/
+structure LInv (m : Map X) (i j stop pl pr ls rs : Nat) (E : Nat → Prop) : Prop where
+  wf : WF 4 m
+  pln : pl < m.n
+  prn : pr < m.n
+  pl0 : pl ≠ 0
+  pr0 : pr ≠ 0
+  b3 : m.β 3 pl = pr
+  bi : m.β i pl = ls
+  bj : m.β j pr = rs
+  prs : pr ≠ stop
+  st3 : stop ≠ 0 → m.β 3 stop ≠ 0
+  mir : ∀ d, d < m.n → d ≠ pl → d ≠ rs → ¬ E d → MAtG m i d
+
+/-- what a successful walk returns -/
+structure WalkOut (m m' : Map X) (i j stop ls rs a b : Nat) (E : Nat → Prop) : Prop where
+  inv : ∃ pl' pr', LInv m' i j stop pl' pr' a b E
+  stopd : a = stop ∨ a = 0
+  grow : Grow3 m m'
+  trace : ∃ k, a = it m i k ls ∧ b = it m j k rs ∧
+    ∀ t, t < k → it m i t ls ≠ stop ∧ it m i t ls ≠ 0 ∧ it m j t rs ≠ 0 ∧
+      m.β 3 (it m i t ls) = 0 ∧ m.β 3 (it m j t rs) = 0
+
+theorem linkWalk_ok {ld rd stop i j : Nat} (dir : Dir i j) (E : Nat → Prop) :
+    ∀ (f ls rs pl pr : Nat) (m m' : Map X) (a b : Nat),
+      LInv m i j stop pl pr ls rs E →
+      run (threeLinkWalk (X := X) ld rd stop i j f ls rs) m = (.ok (a, b), m') →
+      WalkOut m m' i j stop ls rs a b E := by
+  intro f
+  induction f with
+  | zero =>
+      intro ls rs pl pr m m' a b _ h
+      unfold threeLinkWalk at h; simp at h
+  | succ f ih =>
+      intro ls rs pl pr m m' a b I h
+      unfold threeLinkWalk at h
+      by_cases hc : ls ≠ stop ∧ ls ≠ 0
+      · rw [if_pos hc] at h
+        by_cases hrs : rs = 0
+        · rw [if_pos hrs] at h; simp at h
+        · rw [if_neg hrs] at h
+          obtain ⟨_, m1, hl, h⟩ := run_bind_ok h
+          obtain ⟨ok1, ok2, f1, f2, rfl⟩ := iLinkCore_ok hl
+          obtain ⟨ls', hb, h⟩ := run_ro_bind_ok (ReadOnly.rB _ _) h
+          obtain ⟨rfl, _, _⟩ := run_rB_ok hb
+          obtain ⟨rs', hb', h⟩ := run_ro_bind_ok (ReadOnly.rB _ _) h
+          obtain ⟨rfl, _, _⟩ := run_rB_ok hb'
+          have em : ∀ l r, (m.setβ 3 l r).setβ 3 r l = m.linkI 3 l r := fun _ _ => rfl
+          simp only [em] at h
+          have hw := I.wf
+          have hi4 : i < 4 := by have := dir.ilt; omega
+          have hj4 : j < 4 := by have := dir.jlt; omega
+          have hi3 : i ≠ 3 := by have := dir.ilt; omega
+          have hj3 : j ≠ 3 := by have := dir.jlt; omega
+          have n3i : ¬ (3 = i) := fun hh => hi3 hh.symm
+          have n3j : ¬ (3 = j) := fun hh => hj3 hh.symm
+          have hlsn : ls < m.n := by rw [← I.bi]; exact hw.range i hi4 pl I.pln
+          have hrsn : rs < m.n := by rw [← I.bj]; exact hw.range j hj4 pr I.prn
+          have hjls : m.β j ls = pl := by
+            have := hw.inv_ij dir I.pln (by rw [I.bi]; exact hc.2); rwa [I.bi] at this
+          have hirs : m.β i rs = pr := by
+            have := hw.inv_ij dir.symm I.prn (by rw [I.bj]; exact hrs); rwa [I.bj] at this
+          have hpr3 : m.β 3 pr = pl := by
+            have := (hw.invol 3 (by omega) (by omega) pl I.pln (by rw [I.b3]; exact I.pr0)).1
+            rwa [I.b3] at this
+          have huls : m.unused ls = false := by
+            have := hw.image_inUse hi4 I.pln (by rw [I.bi]; exact hc.2); rw [I.bi] at this; exact this.2
+          have hurs : m.unused rs = false := by
+            have := hw.image_inUse hj4 I.prn (by rw [I.bj]; exact hrs); rw [I.bj] at this; exact this.2
+          have hprls : pr ≠ ls := fun hh => I.pl0 (by rw [← hpr3, hh, f1])
+          have hprrs : pr ≠ rs := fun hh => I.pl0 (by rw [← hpr3, hh, f2])
+          have hplls : pl ≠ ls := fun hh => I.pr0 (by rw [← I.b3, hh, f1])
+          have hplrs : pl ≠ rs := fun hh => I.pr0 (by rw [← I.b3, hh, f2])
+          by_cases hlr : ls = rs
+          · -- the core was handed the same dart twice: a β3 fixed point is created, and the
+            -- next round is necessarily refused (its left dart is the previous right dart)
+            exfalso
+            subst hlr
+            have eβ := hw.toSized.β_linkI (i := 3) (by omega) hlsn hlsn
+            have e1 : (m.linkI 3 ls ls).β i ls = pr := by
+              rw [eβ]; simp only [n3i, false_and, if_false]; exact hirs
+            have e2 : (m.linkI 3 ls ls).β j ls = pl := by
+              rw [eβ]; simp only [n3j, false_and, if_false]; exact hjls
+            rw [e1, e2] at h
+            cases f with
+            | zero => unfold threeLinkWalk at h; simp at h
+            | succ f' =>
+                unfold threeLinkWalk at h
+                rw [if_pos ⟨I.prs, I.pr0⟩, if_neg I.pl0] at h
+                obtain ⟨_, m2, hl2, _⟩ := run_bind_ok h
+                obtain ⟨_, _, g1, _, _⟩ := iLinkCore_ok hl2
+                rw [eβ] at g1
+                have : ¬ (ls = pr) := fun hh => hprls hh.symm
+                simp only [this, and_false, if_false] at g1
+                exact I.pl0 (by rw [← hpr3, g1])
+          · have hw1 : WF 4 (m.linkI 3 ls rs) :=
+              hw.linkI (by omega) (by omega) hc.2 hrs hlr hlsn hrsn huls hurs f1 f2
+            have hg : Grow3 m (m.linkI 3 ls rs) := Grow3.linkI hw hlsn hrsn f1 f2
+            have eβ := hw.toSized.β_linkI (i := 3) (by omega) hlsn hrsn
+            have hβi : ∀ x, (m.linkI 3 ls rs).β i x = m.β i x := fun x => hg.β i x hi3
+            have hβj : ∀ x, (m.linkI 3 ls rs).β j x = m.β j x := fun x => hg.β j x hj3
+            have nrl : ¬ (rs = ls) := fun hh => hlr hh.symm
+            have e_ls : (m.linkI 3 ls rs).β 3 ls = rs := by rw [eβ]; simp [nrl]
+            have e_rs : (m.linkI 3 ls rs).β 3 rs = ls := by rw [eβ]; simp
+            have e_oth : ∀ x, x ≠ ls → x ≠ rs → (m.linkI 3 ls rs).β 3 x = m.β 3 x := by
+              intro x h1 h2
+              rw [eβ]
+              have a1 : ¬ (rs = x) := fun hh => h2 hh.symm
+              have a2 : ¬ (ls = x) := fun hh => h1 hh.symm
+              simp [a1, a2]
+            have I1 : LInv (m.linkI 3 ls rs) i j stop ls rs ((m.linkI 3 ls rs).β i ls)
+                ((m.linkI 3 ls rs).β j rs) E := by
+              refine ⟨hw1, hlsn, hrsn, hc.2, hrs, e_ls, rfl, rfl, ?_, ?_, ?_⟩
+              · intro hh
+                by_cases hs0 : stop = 0
+                · exact hrs (hh.trans hs0)
+                · exact I.st3 hs0 (hh ▸ f2)
+              · intro hs0; rw [hg.keep stop (I.st3 hs0)]; exact I.st3 hs0
+              · intro d hd hdls hdrs' hE
+                have hd' : d < m.n := hd
+                rw [hβj] at hdrs'
+                unfold MAtG
+                simp only [hβi]
+                by_cases hdpl : d = pl
+                · rw [hdpl, I.bi, e_ls, e_oth pl hplls hplrs, I.b3]
+                  intro _ _ _; exact hirs
+                · by_cases hdrs : d = rs
+                  · rw [hdrs, hirs, e_rs, e_oth pr hprls hprrs, hpr3]
+                    intro _ _ _; exact I.bi
+                  · intro h1 h2 h3
+                    have hc1 : m.β i d ≠ ls := by
+                      intro hh
+                      have := hw.inv_ij dir hd' h1
+                      rw [hh, hjls] at this
+                      exact hdpl this.symm
+                    have hc2 : m.β i d ≠ rs := by
+                      intro hh
+                      have := hw.inv_ij dir hd' h1
+                      rw [hh] at this
+                      exact hdrs' this.symm
+                    rw [e_oth d hdls hdrs] at h2 ⊢
+                    rw [e_oth _ hc1 hc2] at h3 ⊢
+                    exact I.mir d hd' hdpl hdrs hE h1 h2 h3
+            have R := ih _ _ ls rs (m.linkI 3 ls rs) m' a b I1 h
+            refine ⟨R.inv, R.stopd, hg.trans R.grow, ?_⟩
+            obtain ⟨k, ha, hb2, ht⟩ := R.trace
+            have ei : ∀ t x, it (m.linkI 3 ls rs) i t x = it m i t x := it_congr hβi
+            have ej : ∀ t x, it (m.linkI 3 ls rs) j t x = it m j t x := it_congr hβj
+            have e1 : ∀ t, it (m.linkI 3 ls rs) i t ((m.linkI 3 ls rs).β i ls) = it m i (t + 1) ls := by
+              intro t
+              show _ = it m i t (m.β i ls)
+              rw [ei, hβi ls]
+            have e2 : ∀ t, it (m.linkI 3 ls rs) j t ((m.linkI 3 ls rs).β j rs) = it m j (t + 1) rs := by
+              intro t
+              show _ = it m j t (m.β j rs)
+              rw [ej, hβj rs]
+            refine ⟨k + 1, by rw [ha, e1], by rw [hb2, e2], ?_⟩
+            intro t ht'
+            cases t with
+            | zero => exact ⟨hc.1, hc.2, hrs, f1, f2⟩
+            | succ t =>
+                obtain ⟨q1, q2, q3, q4, q5⟩ := ht t (by omega)
+                have q4' := hg.free q4
+                have q5' := hg.free q5
+                rw [e1] at q1 q2 q4'
+                rw [e2] at q3 q5'
+                exact ⟨q1, q2, q3, q4', q5'⟩
+      · rw [if_neg hc] at h
+        obtain ⟨hab, rfl⟩ := run_pure_ok h
+        simp only [Prod.mk.injEq] at hab
+        obtain ⟨rfl, rfl⟩ := hab
+        refine ⟨⟨pl, pr, I⟩, by omega, Grow3.refl _, 0, rfl, rfl, ?_⟩
+        intro t ht; omega
+
 end HC
